@@ -1102,12 +1102,18 @@ def gen_case(kind: str, vseed: int, j: int) -> dict:
         refs = frozen_refs("<R>")
         vias = ["resolve", "write", "resolve_cache_dir"]
         n1 = len(refs) * len(vias)
-        a_, rest = j % n1, j // n1
-        b_, rest = rest % n1, rest // n1
-        tam = [None, "rewrite", "stealth"][rest % 3]
+        # first steps that can leave state behind come first (a reference that resolves, or whose file exists / almost matches):
+        # the quick tier enumerates exactly those as first step (6 x 3 x 63 x 3 = 3 402 sequences), the thorough tier all 11 907
+        leaders = [i for i, (lab, _) in enumerate(refs) if lab in ("good", "good-upper", "same-prefix-wrong-tail", "file-with-wrong-bytes",
+                                                                   "latest", "missing")]
+        order = [v * len(refs) + i for v in range(len(vias)) for i in leaders] + [x for x in range(n1) if x % len(refs) not in leaders]
+        b_, rest = j % n1, j // n1
+        tam, rest = [None, "rewrite", "stealth"][rest % 3], rest // 3
+        a_idx, rest = rest % n1, rest // n1
+        a_ = order[a_idx]
         steps = [{"ref": list(refs[a_ % len(refs)]), "via": vias[a_ // len(refs)]},
                  {"ref": list(refs[b_ % len(refs)]), "via": vias[b_ // len(refs)], "tamper": tam}]
-        if rest >= 3:
+        if rest >= 1:
             # beyond the exhaustive pairs: seeded longer sequences
             steps = [{"ref": list(t.pick(refs, "fz.ref")), "via": t.pick(vias, "fz.via"), "tamper": t.pick([None, None, "rewrite", "stealth"], "fz.t")}
                      for _ in range(3 + t.choose(3, "fz.n"))]
@@ -1125,8 +1131,8 @@ def gen_case(kind: str, vseed: int, j: int) -> dict:
 def units(tier: str, vseed: int) -> list:
     out = []
     if tier == "quick":
-        plan = [("path", 64, 400), ("schema", 20, 250), ("frozen", 48, 250), ("uri", 4, 120),
-                ("path_seq", 4, 216)]  # all 11 907 frozen pairs, 3 136 schema pairs, 864 path sequences
+        plan = [("path", 48, 400), ("schema", 13, 250), ("frozen", 14, 250), ("uri", 4, 120),
+                ("path_seq", 4, 216)]  # 3 402+ frozen pairs (state-setting first steps), all 3 136 schema pairs, 864 path sequences
         sweep_len = 4
     else:
         plan = [("path", 1600, 800), ("schema", 320, 500), ("frozen", 200, 250), ("uri", 64, 240), ("path_seq", 16, 216)]
